@@ -74,6 +74,14 @@ func init() {
 				}
 			}
 			opts.Kinds = kinds
+			// one run in four may contain known-finding triggers, the rest avoids them all
+			if d.N(4) == 3 {
+				opts.ActivityDefault = true
+				opts.SubInLoop = true
+				opts.ForkInOr = true
+				opts.OrInAnd = true
+				opts.ActivityMultiFork = true
+			}
 			opts.MaxDepth = 1 + d.N(2)
 			opts.MaxTasks = 3 + d.N(6)
 			prog := GenProgram(d, opts)
@@ -97,6 +105,7 @@ func init() {
 				nreq += n
 			}
 			o.Nontrivial = r.Switches > 0 && nreq >= 2
+			o.Tags = c.Prog.Tags
 			o.Sample = map[string]any{"program": c.Prog.Desc, "vars": c.Prog.Vars, "buf": c.Buf, "hold": c.Hold, "requests": tg.Requests, "ends": tg.M.Ends}
 			return o
 		},
